@@ -17,13 +17,18 @@ from common import Ctx
 TRUSTED = [
     "Lean 4.33 kernel; axioms ⊆ {propext, Classical.choice, Quot.sound}",
     "fragment: int/bool values, + - *, bitwise & | ^, // and %, abs(e), min/max over int-typed operands (n-ary calls = left fold), unary minus, comparisons, "
-    "and/or/not over bools, conditional expressions, assignment, augmented assignment (every operator), if/elif/else, while, for-range, break, serial write "
+    "and/or/not over bools, conditional expressions, assignment, augmented assignment (every operator), tuple assignment to already declared names of "
+    "the right-hand sides' types (W5), if/elif/else, while, for-range, break, serial write "
     "of ints, sleep; names first assigned at top level or (tr2) one block below it; helper functions, lists, strings, floats, / ** << >> and `continue` are "
     "outside the theorem and exercised only by the end-to-end oracle",
     "`//` and `%`: the theorem is about the STRICT reading of the C semantics, which stops with `signedDiv` at a `/` or `%` with a negative dividend or divisor "
     "(there C and Python may differ: K01b, K01c); runs that stop there are not compared in the strict S_c tie, but the RAW reading (C's truncating operators) is "
     "tied to g++ on every run, and a CPython-vs-firmware difference in such a run is reported under core:floor-division-negative / core:modulo-negative; "
     "a zero divisor: CPython raises (run skipped as python-raises), the model's raw run reports it and the host firmware dies with SIGFPE",
+    "tuple assignment: the source tree carries the parser's `tmp_counter` at each tuple statement; the driver computes it (`Prog.renum`: loop bodies hand the "
+    "counter back, `if` branches do not, the main loop continues after the prologue) and T compares the resulting `__tmp_assign_N` names with the emitted text; "
+    "the C model ends the lifetime of the temporaries with the statement (C++: end of the block; no emitted statement reads them later, `WF.stmtOk`); a first "
+    "assignment by tuple (all-new-at-global-scope form, local declarations of F17) is `outside-fragment` for the model and exercised by E only",
     "bitwise operators on negative ints: the model's own two's-complement definitions (bitAnd/bitOr/bitXor over Nat operations), tied to CPython and g++ by S_py / S_c",
     "abs/min/max: the model evaluates the chosen operand once, the Arduino macros twice (expressions of the fragment are pure)",
     "C int modelled as an unbounded integer with a 32-bit range check (`overflow`): 16-bit AVR int is a side condition the model does not check",
@@ -32,6 +37,31 @@ TRUSTED = [
 
 FUEL = 4000
 OPS_COUNTED = ["band", "bor", "bxor", "abs", "min", "max", "fdiv", "fmod"]
+
+
+V = lambda x: ("v", x)
+I = lambda n: ("i", n)
+# W5: pinned tuple-assignment programs of the fragment (through T, S_py, S_c and E like the generated ones): Fibonacci in prologue and main
+# loop; swaps / rotations in nested blocks; the counter threading of the temporaries (branches of an `if` restart from the parent's
+# counter and do not hand it back, loop bodies do, the main loop continues after the prologue)
+FIXED_TUPLES = [
+    {"pre": [("as", "a", I(0)), ("as", "b", I(1)), ("tup", ["a", "b"], [V("b"), ("bin", "add", V("a"), V("b"))]), ("wr", V("a"))],
+     "loop": [("tup", ["a", "b"], [V("b"), ("bin", "add", V("a"), V("b"))]), ("wr", V("a")), ("wr", V("b"))]},
+    {"pre": [("as", "a", I(1)), ("as", "b", I(2)), ("as", "c", I(3)), ("as", "p", ("b", False)), ("as", "q", ("b", True)),
+             ("if", ("cmp", "lt", V("a"), V("b")), [("tup", ["a", "b"], [V("b"), V("a")]), ("tup", ["p", "q"], [V("q"), V("p")])],
+              [("tup", ["a", "b", "c"], [V("c"), V("a"), V("b")])]),
+             ("tup", ["c", "a"], [V("a"), V("c")]),
+             ("for", "i1", I(3), [("tup", ["a", "b", "c"], [V("b"), V("c"), ("bin", "add", V("a"), V("i1"))]), ("wr", V("a"))]),
+             ("tup", ["a", "p"], [("bin", "mul", V("b"), I(2)), ("cmp", "gt", V("a"), V("c"))]),
+             ("wr", V("a")), ("wr", V("b")), ("wr", V("c"))],
+     "loop": [("if", V("p"), [("tup", ["a", "b"], [V("b"), V("a")])], [("if", V("q"), [("tup", ["b", "c"], [V("c"), V("b")])], [("tup", ["p", "q"], [("not", V("p")), V("p")])])]),
+              ("tup", ["p", "q"], [V("q"), V("p")]), ("wr", V("a")), ("wr", V("b")), ("wr", V("c"))]},
+    {"pre": [("as", "a", I(5)), ("as", "b", I(8)), ("as", "n1", I(0)),
+             ("while", ("cmp", "lt", V("n1"), I(3)), [("aug", "n1", "add", I(1)), ("if", ("cmp", "gt", V("a"), V("b")), [("tup", ["a", "b"], [("bin", "sub", V("a"), V("b")), V("b")])], [("tup", ["b", "a"], [("bin", "sub", V("b"), V("a")), V("a")])]),
+                                                    ("tup", ["a", "b"], [("bin", "add", V("a"), I(1)), ("bin", "add", V("b"), V("n1"))])]),
+             ("tup", ["a", "b"], [V("b"), V("a")]), ("wr", V("a")), ("wr", V("b"))],
+     "loop": None},
+]
 
 
 def ev_str(evs):
@@ -215,6 +245,7 @@ def run(ctx: Ctx) -> int:
     promo = [langgen.G(rng, max_depth=rng.choice([2, 3]), promote=True).program() for _ in range(ctx.n(60, 1200))]
     # conditions written as chained comparisons (`a < b <= c`): the model is given the conjunction they abbreviate, so T is skipped for them
     progs += [langgen.G(rng, max_depth=rng.choice([2, 3]), chains=True).program() for _ in range(ctx.n(50, 600))]
+    progs += FIXED_TUPLES
     n_plain = len(progs) + 1
     # every top-level `break` directly in the main loop must be rejected (through if nesting too)
     progs.append({"pre": [("as", "a", ("i", 1))], "loop": [("wr", ("v", "a")), ("if", ("cmp", "gt", ("v", "a"), ("i", 0)), [("brk",)], [])]})
@@ -237,6 +268,9 @@ def run(ctx: Ctx) -> int:
         for opn in OPS_COUNTED:
             if f"(bin {opn} " in sx or f" {opn} (" in sx or f"({opn} " in sx:
                 ctx.count("programs-using:" + opn)
+        if "(tup " in sx:
+            ctx.count("programs-using:tuple-assignment")
+            ctx.count("tuple-assignments", sx.count("(tup "))
         if t2 and t.startswith("ok") and not t.endswith(" in"):
             ctx.tie_diff("generator invariant (promotion programs are in InF2)", {"script": src}, t[-4:], "")
         replay = {"script": src, "passes": n}
@@ -345,7 +379,8 @@ def run(ctx: Ctx) -> int:
             continue
         e_compare(ctx, key, src, 3, res, inside)
     ctx.cov["rule"] = ("type-directed random programs of the core fragment (depth <= 3, bounded while loops, for-range, break, nested if/elif/else, int and bool "
-                       "names all first assigned at top level; expressions over + - * & | ^ // % abs min max, divisors mostly positive), N in {0,1,3} passes; "
+                       "names all first assigned at top level; expressions over + - * & | ^ // % abs min max, divisors mostly positive; tuple assignments (swaps, rotations, "
+                       "Fibonacci-style updates, mixed int/bool targets) in prologue, nested blocks and main loop, plus pinned counter-threading programs), N in {0,1,3} passes; "
                        "each program goes through T, S_py, S_c (strict and raw reading) and E; plus fixed scripts for "
                        "break-in-main-loop, swaps/tuples, helpers, lists, f-strings (E only) and one-construct-outside scripts; non-trivial = has control flow")
     return ctx.finish(TRUSTED, search=None)
